@@ -412,6 +412,28 @@ class Harness:
             return st.get("v")
         raise ValueError(k)
 
+    def msg_list(self, st):
+        """a flat list of real Msg objects for the msg statements of `st` (no generator: nothing records the responses)"""
+        from bluesky.utils import Msg
+
+        out = []
+
+        def walk(s):
+            if s["k"] == "msg":
+                obj = self.devs.get(s.get("obj")) if s.get("obj") else None
+                m = Msg(s["cmd"], obj, *s.get("args", []), **s.get("kw", {}), run=s.get("run"))
+                self.msg_ids[id(m)] = s.get("id", self.n_created)
+                self.n_created += 1
+                self._keep = getattr(self, "_keep", [])
+                self._keep.append(m)
+                out.append(m)
+            elif s["k"] == "seq":
+                for x in s["body"]:
+                    walk(x)
+
+        walk(st)
+        return out
+
     def fut_factory(self, fid):
         def fac():
             ev = self.futs.get(fid)
@@ -548,6 +570,10 @@ class Harness:
             elif a == "suspend":
                 pre = (lambda: self.gen(act["pre"])) if act.get("pre") else None
                 post = (lambda: self.gen(act["post"])) if act.get("post") else None
+                if act.get("form") == "list":
+                    # implementation-only probes: pre/post plan given as a plain LIST of messages (documented: "iterable or callable")
+                    pre = self.msg_list(act["pre"]) if act.get("pre") else None
+                    post = self.msg_list(act["post"]) if act.get("post") else None
                 real = RE._loop
                 outer = self
 
